@@ -4914,6 +4914,14 @@ class NetCDFWrite(IOWrite):
             if not isinstance(effective_fields, (list, tuple)):
                 effective_fields = [effective_fields]
 
+            # Bring the data of the original fields into memory: they
+            # are compared with the appended constructs whilst the
+            # file is open for appending, when it can not be safely
+            # re-opened for reading.
+            for ef in effective_fields:
+                for c in ef.constructs.filter_by_data(todict=True).values():
+                    c.to_memory(inplace=True)
+
             # Fail ASAP if can't perform the operation:
             # 1. because attempting to append at least one field with group(s)
             if fmt == "NETCDF4":
